@@ -57,7 +57,7 @@ pub open spec fn n_child<T: Table>(i: int) -> int { (((T::NODES@[i] >> ((T::NODE
 pub open spec fn c_lo<T: Table>(j: int) -> int { (T::CHILDREN@[j] & lmask(T::CHILDREN_BITS_LO)) as int }
 pub open spec fn c_hi<T: Table>(j: int) -> int { ((T::CHILDREN@[j] >> T::CHILDREN_BITS_LO) & lmask(T::CHILDREN_BITS_HI)) as int }
 pub open spec fn c_type<T: Table>(j: int) -> u32 { ((T::CHILDREN@[j] >> T::CHILDREN_BITS_LO) >> T::CHILDREN_BITS_HI) & lmask(T::CHILDREN_BITS_NODE_TYPE) }
-pub open spec fn label_of<T: Table>(i: int) -> Seq<u8> { sb(T::TEXT).subrange(n_off::<T>(i), n_off::<T>(i) + n_len::<T>(i)) }
+pub open spec fn label_of<T: Table>(i: int) -> Seq<u8> { sb(T::TEXT).subrange(n_off::<T>(i), sb(T::TEXT).len() as int).subrange(0, n_len::<T>(i)) }
 pub open spec fn table_wf<T: Table>() -> bool {
     &&& T::NODES_BITS_TEXT_LENGTH < 32 &&& T::NODES_BITS_TEXT_OFFSET < 32 &&& T::NODES_BITS_ICANN < 32 &&& T::NODES_BITS_CHILDREN < 32
     &&& T::NODES_BITS_TEXT_OFFSET + T::NODES_BITS_TEXT_LENGTH < 32
@@ -65,12 +65,12 @@ pub open spec fn table_wf<T: Table>() -> bool {
     &&& T::NUM_TLD <= T::NODES@.len() &&& T::NODES@.len() <= 0x7fff_ffff
     &&& T::NODE_TYPE_NORMAL != T::NODE_TYPE_EXCEPTION
     &&& forall|k: int| 0 <= k < sb(T::TEXT).len() ==> #[trigger] sb(T::TEXT)[k] < 128
-    &&& forall|i: int| 0 <= i < T::NODES@.len() ==> n_off::<T>(i) + #[trigger] n_len::<T>(i) <= sb(T::TEXT).len()
-    &&& forall|i: int| 0 <= i < T::NODES@.len() ==> #[trigger] n_child::<T>(i) < T::CHILDREN@.len()
-    &&& forall|j: int| 0 <= j < T::CHILDREN@.len() ==> #[trigger] c_lo::<T>(j) <= c_hi::<T>(j) <= T::NODES@.len()
-    &&& forall|i: int| 0 <= i < T::NUM_TLD ==> c_type::<T>(#[trigger] n_child::<T>(i)) != T::NODE_TYPE_EXCEPTION
+    &&& forall|i: int| #![trigger T::NODES@[i]] 0 <= i < T::NODES@.len() ==> n_off::<T>(i) + n_len::<T>(i) <= sb(T::TEXT).len() && n_child::<T>(i) < T::CHILDREN@.len()
+    &&& forall|j: int| #![trigger T::CHILDREN@[j]] 0 <= j < T::CHILDREN@.len() ==> c_lo::<T>(j) <= c_hi::<T>(j) <= T::NODES@.len()
+    &&& forall|i: int| #![trigger T::NODES@[i]] 0 <= i < T::NUM_TLD ==> c_type::<T>(n_child::<T>(i)) != T::NODE_TYPE_EXCEPTION
 }
 pub open spec fn lb(b: Seq<u8>, i: int) -> bool { i == 0 || (0 < i <= b.len() && b[i - 1] == 46u8) }
+pub open spec fn lb_suffix(r: Seq<u8>, d: Seq<u8>) -> bool { r.len() <= d.len() && r == d.subrange(d.len() - r.len(), d.len() as int) && (lb(d, d.len() - r.len()) || r.len() == 0) }
 pub open spec fn no_empty_label(b: Seq<u8>) -> bool { !(b.len() > 0 && b[0] == 46u8) && !(b.len() > 0 && b[b.len() - 1] == 46u8) && !has_dotdot(b) }
 pub struct ListProvider<T: Table>(PhantomData<T>);
 pub trait EffectiveTLDProvider {
@@ -83,7 +83,7 @@ impl<T: Table> EffectiveTLDProvider for ListProvider<T> {
     open spec fn provider_wf(&self) -> bool { table_wf::<T>() }
     fn effective_tld_plus_one<'a>(&self, domain: &'a str) -> (r: Result<&'a str, Error>)
         ensures !no_empty_label(sb(domain)) ==> r matches Err(Error::EmptyLabel),
-            r matches Ok(e) ==> exists|j: int| 0 <= j < sb(domain).len() && lb(sb(domain), j) && sb(e) == sb(domain).subrange(j, sb(domain).len() as int),
+            r matches Ok(e) ==> lb_suffix(sb(e), sb(domain)) && sb(e).len() > 0,
     {
         broadcast use axiom_dotdot_lit;
         if vx_starts_with_char(domain, '.') || vx_ends_with_char(domain, '.') || vx_contains_str(domain, "..") {
@@ -114,9 +114,10 @@ impl<T: Table> ListProvider<T> {
     pub const fn new() -> Self {
         ListProvider(PhantomData)
     }
+    #[verifier::loop_isolation(false)]
     pub fn public_suffix<'a>(&self, domain: &'a str) -> (r: &'a str)
         requires table_wf::<T>(),
-        ensures exists|k: int| 0 <= k <= sb(domain).len() && (lb(sb(domain), k) || k == sb(domain).len()) && sb(r) == sb(domain).subrange(k, sb(domain).len() as int),
+        ensures lb_suffix(sb(r), sb(domain)),
     {
         proof { assert(forall|n: u32| n < 32 ==> (1u32 << n) >= 1) by(bit_vector); }
         let mut lo = 0_u32;
@@ -190,6 +191,7 @@ impl<T: Table> ListProvider<T> {
     // Returns the index of the node in the range [lo, hi) whose label equals
     // label, or `None` if there is no such node. The range is assumed to be in
     // strictly increasing node label order.
+    #[verifier::loop_isolation(false)]
     fn find(&self, label: &str, mut lo: u32, mut hi: u32) -> (r: Option<usize>)
         requires table_wf::<T>(), lo <= hi <= T::NODES@.len(),
         ensures r matches Some(i) ==> lo <= i < hi && label_of::<T>(i as int) == sb(label),
